@@ -252,7 +252,7 @@ func TestSim(t *testing.T) {
 	}
 
 	if rp := os.Getenv("VERIF_REPLAY"); rp != "" {
-		replayMain(t, enc, rp, tier)
+		replayMain(t, enc, rp, tier, scs)
 		return
 	}
 	if len(scs) == 0 {
@@ -445,6 +445,7 @@ func reportViolation(t *testing.T, sc *Scenario, res *RunResult, v Violation, ti
 		Shrunk: len(small.gen)+len(small.sched) < len(orig.gen)+len(orig.sched), OrigLen: len(orig.gen) + len(orig.sched)}
 	ei := res.EnumIndex
 	rf.EnumIndex = &ei
+	rf.History = &ReplayHistory{RunStart: uint64(envInt("VERIF_RUN_START", 0)), NWorkers: int(envInt("VERIF_NWORKERS", 1)), Scenario: os.Getenv("VERIF_SCENARIO")}
 	name := fmt.Sprintf("%s-%s-s%d-r%d.json", sc.Prop, sanitize(v.Sig), res.Seed, res.Run)
 	path := filepath.Join(replayDir, name)
 	if err := writeReplay(path, rf); err != nil {
@@ -484,7 +485,7 @@ type replayOutcome struct {
 }
 
 // replayMain runs exactly the tape of a replay file.
-func replayMain(t *testing.T, enc *json.Encoder, path, tier string) {
+func replayMain(t *testing.T, enc *json.Encoder, path, tier string, scs []*Scenario) {
 	b, err := os.ReadFile(path)
 	if err != nil {
 		enc.Encode(replayOutcome{Type: "replay", Replay: path, Infra: err.Error()})
@@ -504,6 +505,23 @@ func replayMain(t *testing.T, enc *json.Encoder, path, tier string) {
 		tier = rf.Tier
 	}
 	readRaceLog()
+	if (rf.NeedsHistory || os.Getenv("VERIF_REPLAY_WITH_HISTORY") != "") && rf.History != nil {
+		// the runs the worker made before this one, regenerated from the seed
+		os.Setenv("VERIF_NWORKERS", strconv.Itoa(rf.History.NWorkers))
+		hs := scs
+		if rf.History.Scenario != "" {
+			hs = nil
+			for _, x := range scs {
+				if x.Name == rf.History.Scenario {
+					hs = append(hs, x)
+				}
+			}
+		}
+		for r := rf.History.RunStart; r < rf.Run && len(hs) > 0; r++ {
+			execRun(t, hs[int(r)%len(hs)], simrt.NewTape(rf.Seed, r), rf.Seed, r, tier, false)
+		}
+		readRaceLog()
+	}
 	enumIndexOverride = rf.EnumIndex
 	res := execRun(t, sc, simrt.NewReplayTape(rf.Tape, rf.Sched), rf.Seed, rf.Run, tier, true)
 	if simrt.RaceBuild {
